@@ -1408,12 +1408,12 @@ def run(ck: Check):
     else:
         # every prefix of the attached workload, every 3rd (seed-rotated) of
         # the detached one
+        # (seed-rotated strides: seeds 0..3 together cover every prefix)
         sd = rng.randrange(10 ** 6)
-        chunks.append(('ex', ('att2', 1, SMALL, sd, 2, 0)))
-        chunks.append(('ex', ('att2', 1, SMALL, sd, 2, 1)))
-        chunks.append(('ex', ('det1x2', 1, SMALL, rng.randrange(10 ** 6), 3,
-                              ck.seed % 3)))
-    per = 5 if not thorough else 40
+        chunks.append(('ex', ('att2', 1, SMALL, sd, 2, ck.seed % 2)))
+        chunks.append(('ex', ('det1x2', 1, SMALL, rng.randrange(10 ** 6), 4,
+                              ck.seed % 4)))
+    per = 4 if not thorough else 40
     plan = [('att2', 1), ('att3', 1), ('det1x2', 1), ('det1x2', 2),
             ('det2x1', 2), ('det2x2', 1), ('deep', 1), ('deep', 2)]
     reps = 1 if not thorough else 6
@@ -1546,7 +1546,8 @@ def _a2_batch(ck, a2, thorough):
                 a2['skipped'] = (a2['skipped'] or '') + \
                     f' time budget reached after {len(a2["results"])} runs;'
                 break
-            res = P.run_case(case, lock_wait=(600 if thorough else 40))
+            res = P.run_case(case, hard_timeout=(360 if thorough else 200),
+                             lock_wait=(600 if thorough else 40))
             if res.get('lock_busy'):
                 a2['skipped'] = (a2['skipped'] or '') + \
                     ' runtime lock busy (another check holds a runtime);'
@@ -1590,7 +1591,8 @@ def _a2_report(ck, a2):
             ck.violation(f'real:incomplete-result:{case["mode"]}:{role}',
                          f'a value was returned that is not the complete '
                          f'output ({tag})', replay, True)
-        if res.get('second_call') in ('returned', 'hang'):
+        if res.get('client') == 'raised' and \
+                res.get('second_call') in ('returned', 'hang'):
             ck.violation(f'real:second-call-{res["second_call"]}:'
                          f'{case["mode"]}:{role}',
                          f'a call after the failure did not raise ({tag})',
